@@ -190,6 +190,25 @@ func getFileNameForType(typePrefix string, headerType HeaderFooterType) string {
 	}
 }
 
+// headerFooterRelationshipID 返回指向给定页眉/页脚部件的文档关系ID。
+// 同一类型的页眉/页脚再次定义时会覆盖同一个部件（如 header1.xml），此时必须复用该部件已有的关系，
+// 否则每次调用都会在 document.xml.rels 中留下一个指向同一目标的多余关系；没有时才用新的ID追加一个关系。
+func (d *Document) headerFooterRelationshipID(relType, fileName string) string {
+	for i := range d.documentRelationships.Relationships {
+		if d.documentRelationships.Relationships[i].Type == relType && d.documentRelationships.Relationships[i].Target == fileName {
+			return d.documentRelationships.Relationships[i].ID
+		}
+	}
+
+	id := d.nextDocumentRelationshipID() // rId1保留给styles
+	d.documentRelationships.Relationships = append(d.documentRelationships.Relationships, Relationship{
+		ID:     id,
+		Type:   relType,
+		Target: fileName,
+	})
+	return id
+}
+
 // AddHeader 添加页眉
 func (d *Document) AddHeader(headerType HeaderFooterType, text string) error {
 	header := createStandardHeader()
@@ -207,9 +226,6 @@ func (d *Document) AddHeader(headerType HeaderFooterType, text string) error {
 	}
 	header.Paragraphs = append(header.Paragraphs, paragraph)
 
-	// 生成关系ID
-	headerID := d.nextDocumentRelationshipID() // +2因为rId1保留给styles
-
 	// 序列化页眉
 	headerXML, err := xml.MarshalIndent(header, "", "  ")
 	if err != nil {
@@ -226,13 +242,8 @@ func (d *Document) AddHeader(headerType HeaderFooterType, text string) error {
 	// 存储页眉内容
 	d.parts[headerPartName] = fullXML
 
-	// 添加关系到文档关系
-	relationship := Relationship{
-		ID:     headerID,
-		Type:   "http://schemas.openxmlformats.org/officeDocument/2006/relationships/header",
-		Target: fileName,
-	}
-	d.documentRelationships.Relationships = append(d.documentRelationships.Relationships, relationship)
+	// 添加关系到文档关系（重新定义同一类型时复用该部件已有的关系）
+	headerID := d.headerFooterRelationshipID("http://schemas.openxmlformats.org/officeDocument/2006/relationships/header", fileName)
 
 	// 添加内容类型
 	d.addContentType(headerPartName, "application/vnd.openxmlformats-officedocument.wordprocessingml.header+xml")
@@ -260,9 +271,6 @@ func (d *Document) AddFooter(footerType HeaderFooterType, text string) error {
 	}
 	footer.Paragraphs = append(footer.Paragraphs, paragraph)
 
-	// 生成关系ID
-	footerID := d.nextDocumentRelationshipID() // +2因为rId1保留给styles
-
 	// 序列化页脚
 	footerXML, err := xml.MarshalIndent(footer, "", "  ")
 	if err != nil {
@@ -279,13 +287,8 @@ func (d *Document) AddFooter(footerType HeaderFooterType, text string) error {
 	// 存储页脚内容
 	d.parts[footerPartName] = fullXML
 
-	// 添加关系到文档关系
-	relationship := Relationship{
-		ID:     footerID,
-		Type:   "http://schemas.openxmlformats.org/officeDocument/2006/relationships/footer",
-		Target: fileName,
-	}
-	d.documentRelationships.Relationships = append(d.documentRelationships.Relationships, relationship)
+	// 添加关系到文档关系（重新定义同一类型时复用该部件已有的关系）
+	footerID := d.headerFooterRelationshipID("http://schemas.openxmlformats.org/officeDocument/2006/relationships/footer", fileName)
 
 	// 添加内容类型
 	d.addContentType(footerPartName, "application/vnd.openxmlformats-officedocument.wordprocessingml.footer+xml")
@@ -339,9 +342,6 @@ func (d *Document) AddHeaderWithPageNumber(headerType HeaderFooterType, text str
 
 	header.Paragraphs = append(header.Paragraphs, paragraph)
 
-	// 生成关系ID
-	headerID := d.nextDocumentRelationshipID() // +2因为rId1保留给styles
-
 	// 序列化页眉
 	headerXML, err := xml.MarshalIndent(header, "", "  ")
 	if err != nil {
@@ -358,13 +358,8 @@ func (d *Document) AddHeaderWithPageNumber(headerType HeaderFooterType, text str
 	// 存储页眉内容
 	d.parts[headerPartName] = fullXML
 
-	// 添加关系到文档关系
-	relationship := Relationship{
-		ID:     headerID,
-		Type:   "http://schemas.openxmlformats.org/officeDocument/2006/relationships/header",
-		Target: fileName,
-	}
-	d.documentRelationships.Relationships = append(d.documentRelationships.Relationships, relationship)
+	// 添加关系到文档关系（重新定义同一类型时复用该部件已有的关系）
+	headerID := d.headerFooterRelationshipID("http://schemas.openxmlformats.org/officeDocument/2006/relationships/header", fileName)
 
 	// 添加内容类型
 	d.addContentType(headerPartName, "application/vnd.openxmlformats-officedocument.wordprocessingml.header+xml")
@@ -418,9 +413,6 @@ func (d *Document) AddFooterWithPageNumber(footerType HeaderFooterType, text str
 
 	footer.Paragraphs = append(footer.Paragraphs, paragraph)
 
-	// 生成关系ID
-	footerID := d.nextDocumentRelationshipID() // +2因为rId1保留给styles
-
 	// 序列化页脚
 	footerXML, err := xml.MarshalIndent(footer, "", "  ")
 	if err != nil {
@@ -437,13 +429,8 @@ func (d *Document) AddFooterWithPageNumber(footerType HeaderFooterType, text str
 	// 存储页脚内容
 	d.parts[footerPartName] = fullXML
 
-	// 添加关系到文档关系
-	relationship := Relationship{
-		ID:     footerID,
-		Type:   "http://schemas.openxmlformats.org/officeDocument/2006/relationships/footer",
-		Target: fileName,
-	}
-	d.documentRelationships.Relationships = append(d.documentRelationships.Relationships, relationship)
+	// 添加关系到文档关系（重新定义同一类型时复用该部件已有的关系）
+	footerID := d.headerFooterRelationshipID("http://schemas.openxmlformats.org/officeDocument/2006/relationships/footer", fileName)
 
 	// 添加内容类型
 	d.addContentType(footerPartName, "application/vnd.openxmlformats-officedocument.wordprocessingml.footer+xml")
@@ -577,9 +564,6 @@ func (d *Document) AddFormattedHeader(headerType HeaderFooterType, config *Heade
 	paragraph := createFormattedParagraph(config.Text, config.Format, config.Alignment)
 	header.Paragraphs = append(header.Paragraphs, paragraph)
 
-	// 生成关系ID
-	headerID := d.nextDocumentRelationshipID() // +2因为rId1保留给styles
-
 	// 序列化页眉
 	headerXML, err := xml.MarshalIndent(header, "", "  ")
 	if err != nil {
@@ -596,13 +580,8 @@ func (d *Document) AddFormattedHeader(headerType HeaderFooterType, config *Heade
 	// 存储页眉内容
 	d.parts[headerPartName] = fullXML
 
-	// 添加关系到文档关系
-	relationship := Relationship{
-		ID:     headerID,
-		Type:   "http://schemas.openxmlformats.org/officeDocument/2006/relationships/header",
-		Target: fileName,
-	}
-	d.documentRelationships.Relationships = append(d.documentRelationships.Relationships, relationship)
+	// 添加关系到文档关系（重新定义同一类型时复用该部件已有的关系）
+	headerID := d.headerFooterRelationshipID("http://schemas.openxmlformats.org/officeDocument/2006/relationships/header", fileName)
 
 	// 添加内容类型
 	d.addContentType(headerPartName, "application/vnd.openxmlformats-officedocument.wordprocessingml.header+xml")
@@ -642,9 +621,6 @@ func (d *Document) AddFormattedFooter(footerType HeaderFooterType, config *Heade
 	paragraph := createFormattedParagraph(config.Text, config.Format, config.Alignment)
 	footer.Paragraphs = append(footer.Paragraphs, paragraph)
 
-	// 生成关系ID
-	footerID := d.nextDocumentRelationshipID() // +2因为rId1保留给styles
-
 	// 序列化页脚
 	footerXML, err := xml.MarshalIndent(footer, "", "  ")
 	if err != nil {
@@ -661,13 +637,8 @@ func (d *Document) AddFormattedFooter(footerType HeaderFooterType, config *Heade
 	// 存储页脚内容
 	d.parts[footerPartName] = fullXML
 
-	// 添加关系到文档关系
-	relationship := Relationship{
-		ID:     footerID,
-		Type:   "http://schemas.openxmlformats.org/officeDocument/2006/relationships/footer",
-		Target: fileName,
-	}
-	d.documentRelationships.Relationships = append(d.documentRelationships.Relationships, relationship)
+	// 添加关系到文档关系（重新定义同一类型时复用该部件已有的关系）
+	footerID := d.headerFooterRelationshipID("http://schemas.openxmlformats.org/officeDocument/2006/relationships/footer", fileName)
 
 	// 添加内容类型
 	d.addContentType(footerPartName, "application/vnd.openxmlformats-officedocument.wordprocessingml.footer+xml")
